@@ -414,6 +414,38 @@ Proof.
   - unfold do_relf. rewrite L. auto.
 Qed.
 
+(* ---- stop in the middle of a release ---- *)
+Definition relstop_pre (c : cfg) (s : st) (i : N) (putdone : bool) : st :=
+  let s1 := if putdone && c_ordered c then
+              match first_of c s i (pend s) with Some t0 => fst (do_done_core c s t0 false) | None => s end
+            else s in
+  if match aget i (live s) with Some r => negb (s_swif r =? 0) | None => false end
+  then set_dp s1 (aremove i (dp s1)) else s1.
+
+Lemma do_relstop_fst c s i pd p f now :
+  fst (do_relstop c s i pd p f now) = fst (do_crash c (relstop_pre c s i pd) p f now).
+Proof.
+  unfold do_relstop. fold (relstop_pre c s i pd).
+  destruct (do_crash c (relstop_pre c s i pd) p f now) as [s3 o] eqn:E.
+  unfold do_crash in E. destruct (fold_left _ _ _) as [s4 lg] in E. inversion E. reflexivity.
+Qed.
+
+Lemma set_dp_inv1 s d : inv1 s -> inv1 (set_dp s d).
+Proof. intros []. constructor; cbn [set_dp store live pend tick applied released used]; auto. Qed.
+
+Lemma relstop_pre_inv1 c s i pd : c_ordered c = true -> inv1 s -> inv1 (relstop_pre c s i pd).
+Proof.
+  intros O I. unfold relstop_pre.
+  assert (J : inv1 (if pd && c_ordered c then
+              match first_of c s i (pend s) with Some t0 => fst (do_done_core c s t0 false) | None => s end else s)).
+  { destruct (pd && c_ordered c); auto. destruct (first_of c s i (pend s)); auto. apply do_done_core_inv1; auto. }
+  destruct (match aget i (live s) with Some r => negb (s_swif r =? 0) | None => false end); auto.
+  apply set_dp_inv1; auto.
+Qed.
+
+Lemma do_relstop_inv1 c s i pd p f now : c_ordered c = true -> inv1 s -> inv1 (fst (do_relstop c s i pd p f now)).
+Proof. intros O I. rewrite do_relstop_fst. apply do_crash_inv1. apply relstop_pre_inv1; auto. Qed.
+
 Lemma step_inv1 c s o s' out :
   c_ordered c = true -> c_delretry c = true -> inv1 s -> step c s o = Some (s', out) -> inv1 s'.
 Proof.
@@ -427,6 +459,7 @@ Proof.
   - inversion H. change s' with (fst (s', out)). rewrite <- H1. apply do_cksf_inv1; auto.
   - inversion H. change s' with (fst (s', out)). rewrite <- H1. apply do_relf_inv1; auto.
   - inversion H. change s' with (fst (s', out)). rewrite <- H1. apply do_crash_inv1; auto.
+  - inversion H. change s' with (fst (s', out)). rewrite <- H1. apply do_relstop_inv1; auto.
 Qed.
 
 Lemma run_inv (P : st -> Prop) c :
@@ -1172,6 +1205,27 @@ Proof.
   - unfold do_relf. rewrite L. auto.
 Qed.
 
+Lemma set_dp_inv2 c s d : inv2 c s -> inv2 c (set_dp s d).
+Proof. intros []. constructor; cbn [set_dp store live pend leases applied]; auto. Qed.
+
+Lemma relstop_pre_inv2 c s i pd : c_ordered c = true -> inv1 s -> inv2 c s -> inv2 c (relstop_pre c s i pd).
+Proof.
+  intros O I1 I2. unfold relstop_pre.
+  assert (J : inv2 c (if pd && c_ordered c then
+              match first_of c s i (pend s) with Some t0 => fst (do_done_core c s t0 false) | None => s end else s)).
+  { destruct (pd && c_ordered c); auto. destruct (first_of c s i (pend s)); auto. apply do_done_core_inv2; auto. }
+  destruct (match aget i (live s) with Some r => negb (s_swif r =? 0) | None => false end); auto.
+  apply set_dp_inv2; auto.
+Qed.
+
+Lemma do_relstop_inv2 c s i pd (p : bool) f now :
+  c_ordered c = true -> reserves c -> inv1 s -> inv2 c s -> inv2 c (fst (do_relstop c s i pd p f now)).
+Proof.
+  intros O RS I1 I2. rewrite do_relstop_fst. apply do_crash_inv2; auto.
+  - apply relstop_pre_inv1; auto.
+  - apply relstop_pre_inv2; auto.
+Qed.
+
 Lemma step_inv12 c s o s' out :
   c_ordered c = true -> c_delretry c = true -> reserves c -> pools_small c ->
   inv1 s /\ inv2 c s -> step c s o = Some (s', out) -> inv1 s' /\ inv2 c s'.
@@ -1187,6 +1241,7 @@ Proof.
   - inversion H. change s' with (fst (s', out)). rewrite <- H1. apply do_cksf_inv2; auto.
   - inversion H. change s' with (fst (s', out)). rewrite <- H1. apply do_relf_inv2; auto.
   - inversion H. change s' with (fst (s', out)). rewrite <- H1. apply do_crash_inv2; auto.
+  - inversion H. change s' with (fst (s', out)). rewrite <- H1. apply do_relstop_inv2; auto.
 Qed.
 
 (* T3 in full *)
